@@ -13,6 +13,7 @@ completed_blob_hashes and in the DHT announcer's work list (SQLiteStorage.get_bl
 settings of announce_head_and_sd_only): whatever is reported or announced must have its file.
 """
 import asyncio
+import errno
 import hashlib
 import json
 import os
@@ -97,6 +98,10 @@ class Die(Exception):
     pass
 
 
+class StartFailed(Exception):
+    pass
+
+
 class World:
     def __init__(self, loop, root=None):
         self.loop = loop
@@ -117,6 +122,8 @@ class World:
         self.bm = None
         self.dead = False
         self.descriptors = {}                      # sd_hash -> StreamDescriptor (python data kept by the harness)
+        self.managed = []                          # sd hashes of the managed streams published in this world
+        self.daemon_flags = []                     # per daemon start: sd_hash -> "its file is not JSON"
 
     # -- lifecycle --------------------------------------------------------------------------------
     async def boot(self):
@@ -213,11 +220,18 @@ class World:
     def listing(self):
         out = []
         for nm in os.listdir(self.blob_dir):
+            if nm.endswith('.tmp'):
+                continue          # scratch files of BlobFile._write_blob: never blob names, not part of the model
             p = os.path.join(self.blob_dir, nm)
             if os.path.isdir(p):
                 out.append([hx(nm), 'd', 0])
             elif os.path.islink(p) and not os.path.exists(p):
-                out.append([hx(nm), 'l', 0])                     # dangling symlink
+                try:
+                    os.stat(p)
+                    kind = 'l'
+                except OSError as e:
+                    kind = 'o' if e.errno == errno.ELOOP else 'l'    # symlink loop / dangling symlink
+                out.append([hx(nm), kind, 0])
             else:
                 out.append([hx(nm), 'f', os.path.getsize(p)])    # regular file or symlink to one (size of the target)
         return sorted(out)
@@ -295,10 +309,14 @@ class World:
             writer.close_handle()
             return 'nolength'
         if inflight:
-            await blob.verified.wait()
+            try:
+                await asyncio.wait_for(blob.verified.wait(), 3)
+            except asyncio.TimeoutError:
+                return 'failed'
             return 'done'
         await self.drain()
-        return 'done'
+        # since 82794e2 a write that could not be stored (a directory sits at the blob's path) leaves the blob unverified
+        return 'done' if blob.get_is_verified() else 'failed'
 
     async def touch(self, h, length):
         blob, early = self._begin_download(h, length)
@@ -331,10 +349,9 @@ class World:
             writer.write(data)
             await self.drain()
         elif isinstance(blob, BlobFile):
-            p = os.path.join(self.blob_dir, h)
-            if not os.path.isdir(p):
-                with open(p, 'wb') as f:
-                    f.write(data[:written])
+            # death in the middle of BlobFile._write_blob: since 1cc6188 the partial bytes sit in '<hash>.tmp'
+            with open(os.path.join(self.blob_dir, h + '.tmp'), 'wb') as f:
+                f.write(data[:written])
         await self.kill()
         return 'done'
 
@@ -365,6 +382,7 @@ class World:
                 await self.storage.save_content_claim(stream.stream_hash, txid + ':0')
                 await self.drain()
                 self.descriptors[stream.sd_hash] = stream.descriptor
+                self.managed.append(stream.sd_hash)
                 # keep a copy of every blob file of the stream: "the user puts the blob back" restores true content
                 os.makedirs(os.path.join(self.root, 'backup'), exist_ok=True)
                 for h in [stream.sd_hash] + [b.blob_hash for b in stream.descriptor.blobs[:-1]]:
@@ -430,10 +448,20 @@ class World:
         await self.drain()
         return 'done'
 
+    def ext_loop(self, n):
+        p = os.path.join(self.blob_dir, n)
+        if not os.path.lexists(p):
+            os.symlink(n, p)               # a link to itself: every access through it fails with ELOOP
+
     def ext_file(self, n, size, content=None):
         p = os.path.join(self.blob_dir, n)
         if os.path.isdir(p):
             return
+        try:
+            os.stat(p)
+        except OSError as e:
+            if e.errno == errno.ELOOP:
+                return                     # nothing can be written through a symlink loop
         with open(p, 'wb') as f:
             if content is not None:
                 f.write(content)
@@ -464,6 +492,30 @@ class World:
             else:
                 f.write(b'\x6b' * target)
         os.symlink(t, p)
+
+    def damaged(self, n, how):
+        """the true sd blob of a managed stream, damaged: 'json' = bytes that are not JSON; 'hash' = still a well
+        formed descriptor, but one hex digit of the stream name differs, so the stream hash no longer matches"""
+        with open(os.path.join(self.root, 'backup', n), 'rb') as f:
+            good = f.read()
+        if how == 'json':
+            return b'#' * len(good)
+        d = json.loads(good.decode())
+        last = d['stream_name'][-1]
+        d['stream_name'] = d['stream_name'][:-1] + ('0' if last != '0' else '1')
+        return json.dumps(d, sort_keys=True).encode()
+
+    def sd_not_json(self, sd):
+        """what the sd blob file holds right now, judged independently: True iff there is a file and it is not JSON"""
+        p = os.path.join(self.blob_dir, sd)
+        if not os.path.isfile(p):
+            return False
+        try:
+            with open(p, 'rb') as f:
+                json.loads(f.read().decode())
+            return False
+        except ValueError:
+            return True
 
     def ext_dir(self, n):
         p = os.path.join(self.blob_dir, n)
@@ -514,9 +566,11 @@ def blob_data(case, h):
     return bytes.fromhex(case['blobs'][h])
 
 
-def model_ops(case):
-    """the case's op list in the model's vocabulary (names as hex of their bytes)"""
+def model_ops(case, daemon_flags=None):
+    """the case's op list in the model's vocabulary (names as hex of their bytes); daemon_flags: what the
+    implementation run observed about sd blob files at each daemon start, in order"""
     out = []
+    flags = list(daemon_flags or [])
     for o in case['ops']:
         k = o['op']
         m = {'op': k}
@@ -524,9 +578,10 @@ def model_ops(case):
             # the streams that are managed files at this point of the history
             managed = [p['stream'] for p in case['ops'][:len(out)] if p['op'] == 'publish' and p.get('managed')]
             sts = []
+            now = flags.pop(0) if flags else {}
             for i in managed:
                 hs, sd = expected_of(case['streams'][i])
-                sts.append([hx(sd[0]), sd[1], [hx(h) for h, _ in hs]])
+                sts.append([hx(sd[0]), sd[1], [hx(h) for h, _ in hs], bool(now.get(sd[0], False))])
             m = {'op': 'daemon_start', 'streams': sts}
             if o.get('save') is not None:
                 m['save'] = bool(o['save'])
@@ -552,7 +607,7 @@ def model_ops(case):
             m.update(hs=[hx(h) for h, _ in hs], sd=hx(sd[0]))
         elif k == 'ext_file':
             m.update(n=hx(resolve_name(case, o['n'])), size=o['size'])
-        elif k in ('ext_dir', 'ext_remove'):
+        elif k in ('ext_dir', 'ext_remove', 'ext_loop'):
             m.update(n=hx(resolve_name(case, o['n'])))
         elif k == 'ext_link':
             m.update(n=hx(resolve_name(case, o['n'])), target=o['target'])
@@ -619,8 +674,17 @@ async def run_ops(w, case, ops, on_restart, trace):
         if k == 'restart':
             # with writes in flight the pre-state cannot be observed without yielding to them: after-only clauses
             before = None if o.get('inflight') else dict(await w.observe(), lengths=w.lengths())
-            await w.restart(o.get('mode', 'new'), o.get('save'), inflight=bool(o.get('inflight')),
-                            daemon=bool(o.get('daemon')))
+            if o.get('daemon'):
+                # what each managed stream's sd blob file holds as the daemon starts (input of the model's op)
+                w.daemon_flags.append({sd: w.sd_not_json(sd) for sd in w.managed})
+                if before is not None:
+                    before['not_json'] = [hx(sd) for sd, bad in w.daemon_flags[-1].items() if bad]
+            try:
+                await w.restart(o.get('mode', 'new'), o.get('save'), inflight=bool(o.get('inflight')),
+                                daemon=bool(o.get('daemon')))
+            except Exception as e:                       # a start that raises is the worst bookkeeping failure
+                on_restart(before, None, failed='%s: %s' % (type(e).__name__, e))
+                raise StartFailed()
             r = 'done'
             on_restart(before, dict(await w.observe(), lengths=w.lengths()), daemon=bool(o.get('daemon')),
                        save_switched=o.get('save') is not None)
@@ -629,6 +693,8 @@ async def run_ops(w, case, ops, on_restart, trace):
             content = None
             if o.get('true_content') and n in case['blobs']:
                 content = blob_data(case, n)
+            if o.get('damage'):                          # the sd blob of a managed stream, damaged in place
+                content = w.damaged(n, o['damage'])
             if o.get('restore'):                         # the true blob file of a managed stream comes back
                 with open(os.path.join(w.root, 'backup', n), 'rb') as f:
                     content = f.read()
@@ -639,6 +705,9 @@ async def run_ops(w, case, ops, on_restart, trace):
             r = 'done'
         elif k == 'ext_remove':
             w.ext_remove(resolve_name(case, o['n']))
+            r = 'done'
+        elif k == 'ext_loop':
+            w.ext_loop(resolve_name(case, o['n']))
             r = 'done'
         elif k == 'ext_link':
             w.ext_link(resolve_name(case, o['n']), o['target'], o.get('to'))
@@ -680,16 +749,23 @@ async def run_ops(w, case, ops, on_restart, trace):
 
 
 async def run_impl(case, loop, on_restart):
-    """-> list of {r, s} per op.  on_restart(before, after) feeds the monitor."""
+    """-> (list of {r, s} per op, what was observed about sd blob files at each daemon start).
+    on_restart(before, after) feeds the monitor."""
     w = World(loop)
     trace = []
     try:
         await w.boot()            # the daemon is running with an empty directory and table (the model's init)
         await w.bm.setup()
-        await run_ops(w, case, case['ops'], on_restart, trace)
+        try:
+            await run_ops(w, case, case['ops'], on_restart, trace)
+        except StartFailed:
+            pass                  # reported through the monitor; the history ends here
     finally:
-        await w.close()
-    return trace
+        try:
+            await w.close()
+        except Exception:
+            shutil.rmtree(w.root, ignore_errors=True)
+    return trace, w.daemon_flags
 
 
 async def run_impl_real_kill(case, loop, on_restart):
@@ -776,8 +852,11 @@ def monitor_restart(before, after, prev_restart_after, daemon=False):
     sizes = {n: sz for n, k, sz in after['disk'] if k == 'f'}
     if before is not None and not daemon and before['disk'] != after['disk']:
         return 'the start changed the blob directory'
-    if before is not None and daemon and any(e not in after['disk'] for e in before['disk']):
-        return 'the daemon start removed or changed an entry of the blob directory'
+    if before is not None and daemon:
+        # the one file a daemon start may remove: an sd blob whose bytes are not JSON (the descriptor parser drops it)
+        junk = set(before.get('not_json', ()))
+        if any(e not in after['disk'] and e[0] not in junk for e in before['disk']):
+            return 'the daemon start removed or changed an entry of the blob directory'
     # 1. everything reported as completed has its file (a directory or a dangling link under that name is NOT a file)
     for h in after['completed']:
         if h not in files:
@@ -794,8 +873,11 @@ def monitor_restart(before, after, prev_restart_after, daemon=False):
         if rows_a.get(n) != 'finished':
             return f'blob file {unhx(n)[:12]}.. is present but recorded as {rows_a.get(n)!r}'
     # 3. finished rows whose file has disappeared are downgraded; finished rows have their file
+    # (an sd blob that was not JSON and was dropped by a daemon start may lose its row instead: not 'finished' is what
+    #  the property needs, and the next loop checks exactly that)
+    dropped = set(before.get('not_json', ())) if (before is not None and daemon) else set()
     for h, st in (rows_b or {}).items():
-        if st == 'finished' and h not in files:
+        if st == 'finished' and h not in files and h not in dropped:
             if rows_a.get(h) != 'pending':
                 return f'{unhx(h)[:12]}.. was finished, its file is gone, now recorded as {rows_a.get(h)!r}'
     for h, st in rows_a.items():
@@ -803,6 +885,8 @@ def monitor_restart(before, after, prev_restart_after, daemon=False):
             return f'{unhx(h)[:12]}.. is recorded as finished after the start but has no file'
     # what must not change: no row dropped, rows invented only for present files, other rows untouched
     for h, st in (rows_b or {}).items():
+        if h not in rows_a and h in dropped:
+            continue
         if h not in rows_a:
             return f'the start deleted the row of {unhx(h)[:12]}..'
         if h not in files and st != 'finished' and rows_a[h] != st:
@@ -908,8 +992,10 @@ def gen_case(rng, nops, with_dirs=False, inject=True, toggle_save=False):
             ops.append({'op': 'ext_remove', 'n': n})
         elif c < 0.95:
             ops.append({'op': 'ext_dir', 'n': n})
+        elif c < 0.98:
+            ops.append({'op': 'ext_link', 'n': n, 'target': None})      # dangling symlink
         else:
-            ops.append({'op': 'ext_link', 'n': n, 'target': None})      # dangling symlink (outside, like a directory)
+            ops.append({'op': 'ext_loop', 'n': n})                      # a symlink to itself
 
     def burst():
         # several operations in a row on ONE hash: stale cache entries, replaced files, rows without files ...
@@ -952,7 +1038,7 @@ def gen_case(rng, nops, with_dirs=False, inject=True, toggle_save=False):
 
     while len(ops) < nops:
         c = rng.random()
-        if rng.random() < 0.05:
+        if rng.random() < 0.05 and not with_dirs:
             inflight_restart()
         if rng.random() < 0.08:
             ops.append({'op': 'ext_mark', 'h': any_name()})       # should_announce=1, as set_announce / store_stream do
@@ -1020,6 +1106,8 @@ def prestate_case(names_states):
             ops.append({'op': 'ext_link', 'n': n, 'target': 7})        # symlink to a regular file
         elif d == 'l':
             ops.append({'op': 'ext_link', 'n': n, 'target': None})     # dangling symlink
+        elif d == 'o':
+            ops.append({'op': 'ext_loop', 'n': n})                     # symlink loop
         if r != '-':
             ops.append({'op': 'ext_db', 'h': n, 'st': 'pending' if r == 'p' else 'finished'})
     ops += [{'op': 'restart', 'mode': 'new'}, {'op': 'restart', 'mode': 'new'}, {'op': 'restart', 'mode': 'stop_same'}]
@@ -1082,8 +1170,14 @@ def gen_daemon_case(rng):
             n, size = stream_blob()
             if c < 0.45:
                 ops.append({'op': 'ext_remove', 'n': n})
-            elif c < 0.6:
+            elif c < 0.55:
                 ops.append({'op': 'ext_file', 'n': n, 'size': size, 'restore': True})
+            elif c < 0.6:
+                # the sd blob damaged behind the daemon's back: not JSON / JSON whose stream hash no longer matches
+                i = rng.randrange(nstreams)
+                sdlen = expected_of(case['streams'][i])[1][1]
+                ops.append({'op': 'ext_file', 'n': {'stream': i, 'blob': 'sd'}, 'size': sdlen,
+                            'damage': rng.choice(['json', 'hash'])})
             elif c < 0.72:
                 ops.append({'op': 'delete', 'hs': [n], 'from_db': rng.random() < 0.5})
             elif c < 0.8:
@@ -1133,17 +1227,22 @@ class RestartMonitor:
         self.n = 0
         self.last_after, self.last_idx = None, -2
         self.last_daemon = False
+        self.last_dropped = False
         self.bad = []
 
-    def __call__(self, before, after, daemon=False, save_switched=False):
+    def __call__(self, before, after, daemon=False, save_switched=False, failed=None):
         i = self.restarts[self.n]
         self.n += 1
+        if failed is not None:
+            self.bad.append((i, 'the start did not complete: ' + failed))
+            return
         # "a further restart with nothing changed": the start right before, of the same or a fuller kind (a daemon
         # start after a bare BlobManager restart does more), with the same save_blobs setting
         prev = self.last_after if self.last_idx == i - 1 else None
-        if save_switched or (daemon and not self.last_daemon):
-            prev = None
+        if save_switched or (daemon and not self.last_daemon) or self.last_dropped:
+            prev = None           # (a start that dropped a non-JSON sd blob leaves work for the next: recovery)
         self.last_daemon = daemon
+        self.last_dropped = bool(daemon and before is not None and before.get('not_json'))
         b = monitor_restart(before, after, prev, daemon=daemon)
         if b:
             self.bad.append((i, b))
@@ -1168,6 +1267,31 @@ def with_loop(fn):
         asyncio.set_event_loop(None)
 
 
+STRICT_API = ('complete', 'publish', 'delete', 'stream_delete', 'restart')
+
+
+def monitor_runtime(case, impl):
+    """C18_api_keeps_completed_backed on the implementation: from a start on, as long as only API operations run
+    (no death, nothing behind the daemon's back, no abandoned download) and the directory holds files only, what is
+    reported as completed has its file after EVERY operation, not only after a start."""
+    clean = True          # every history begins right after a start on an empty directory
+    for i, (o, st) in enumerate(zip(case['ops'], impl)):
+        s = st.get('s')
+        if o['op'] not in STRICT_API or o.get('inflight') or o.get('real_kill') or s is None or not s['alive']:
+            clean = False
+            continue
+        if o['op'] == 'restart':
+            clean = all(k == 'f' for _, k, _ in s['disk'])
+            continue
+        if clean:
+            files = {n for n, k, _ in s['disk'] if k == 'f'}
+            for h in s['completed']:
+                if h not in files:
+                    return i, (f'{unhx(h)[:12]}.. is reported as completed but has no file, between restarts, after '
+                               f'the API operation {o["op"]} (only API operations since the last start)')
+    return None
+
+
 def report(run, case, mon, impl, mod):
     for o, st in zip(case['ops'], impl):
         run.count('op:' + o['op'] + ':' + st['r'])
@@ -1177,6 +1301,12 @@ def report(run, case, mon, impl, mod):
     if mon.bad:
         i, what = mon.bad[0]
         run.violation(case, f'at op {i} (restart): {what}',
+                      signature={'ops': case['ops'][:i + 1], 'streams': case['streams'], 'blobs': sorted(case['blobs'])})
+        return
+    rt = monitor_runtime(case, impl)
+    if rt:
+        i, what = rt
+        run.violation(case, f'at op {i}: {what}',
                       signature={'ops': case['ops'][:i + 1], 'streams': case['streams'], 'blobs': sorted(case['blobs'])})
         return
     if impl != mod:
@@ -1194,8 +1324,8 @@ def check_case(run, model, case, kind):
     if any(o.get('real_kill') for o in case['ops']):
         return check_kill_case(run, model, case, kind)
     mon = RestartMonitor(run, [i for i, o in enumerate(case['ops']) if o['op'] == 'restart'])
-    impl = with_loop(lambda loop: run_impl(case, loop, mon))
-    mod = canon_model_trace(model.call('run', ops=model_ops(case)))
+    impl, flags = with_loop(lambda loop: run_impl(case, loop, mon))
+    mod = canon_model_trace(model.call('run', ops=model_ops(case, flags)))
     case = dict(case, kind=kind)
     run.case(case, nontrivial=len({o['op'] for o in case['ops']}) > 1)
     report(run, case, mon, impl, mod)
@@ -1336,10 +1466,11 @@ def main(run):
                 'restarts switch config.save_blobs off or on), always ending with two restarts; '
                 'ext_link (symlink to a regular file on another volume: a relocated blob; dangling symlink and sub-directory in every eighth '
                 'history); daemon-start histories: 1-3 managed streams published through the real StreamManager.create with a claim, '
-                'their sd / content blob files removed, restored with true content or deleted through the API, restarts that run '
+                'their sd / content blob files removed, restored with true content, the sd blob damaged in place (non-JSON bytes; valid '
+                'JSON with a wrong stream hash) or deleted through the API, restarts that run '
                 'BlobManager.setup AND the real StreamManager.initialize_from_database (recover_streams, _load_stream); '
                 'a 2000-row table (all finished, files vanished at positions 10-14 and 900-902 in hash order; not scaled '
-                'down: the unchanged sync_missing_blobs reads no page-size constant); pre-state enumeration: every combination of (absent|file|symlink to file|directory|dangling symlink) '
+                'down: the unchanged sync_missing_blobs reads no page-size constant); pre-state enumeration: every combination of (absent|file|symlink to file|directory|dangling symlink|symlink loop) '
                 'x (no row|pending|finished) per name; a '
                 '>500-file directory for the batch branch; name strings one edit away from a blob hash. distinct = distinct '
                 'case content; non-trivial = more than one kind of operation.')
@@ -1352,8 +1483,8 @@ def main(run):
         check_case(run, model, case, 'corpus:' + nm)
     mark('corpus')
     # all nine (disk, row) combinations in one directory, then every pair (quick) / triple (thorough)
-    combos = [(d, r) for d in '-fsdl' for r in '-pF']
-    check_case(run, model, prestate_case([(hname(i), d, r) for i, (d, r) in enumerate(combos)]), 'prestate-all15')
+    combos = [(d, r) for d in '-fsdlo' for r in '-pF']
+    check_case(run, model, prestate_case([(hname(i), d, r) for i, (d, r) in enumerate(combos)]), 'prestate-all18')
     files_only = [(d, r) for d in '-fs' for r in '-pF']
     check_case(run, model, prestate_case([(hname(i), d, r) for i, (d, r) in enumerate(files_only)]), 'prestate-files6')
     if run.tier == 'thorough':
